@@ -52,6 +52,101 @@ CHECKS = {
             "DESIGN.md 8.C19"),
 }
 
+WIRE_NOTE = (TRUST + "modelled not verified: integer Display (transcribed as the canonical numeral, validated), "
+             "Duration::as_millis/as_nanos, str::trim_end_matches, String growth; float text is std's impl Display for f64 "
+             "(an assumption checked on every float used: non-empty, delimiter-free, finite values parse back bit-identically)")
+QUEUE_NOTE = (TRUST + "modelled not verified: crossbeam-channel 0.5 (linearizable FIFO try_send/recv, bounded capacity, "
+              "rendezvous at 0), Arc, std::thread, unwinding through Sentinel::drop; liveness assumes the OS schedules the "
+              "worker (checked with settle timeouts); 'promptly' / 'on another thread' are runtime facts validated by the "
+              "harness, not proved")
+CHECKS.update({
+    "C01": ("proof",
+            "Coq theorems (Props/C01.v, 17 incl. c01_shape, c01_total, c01_roundtrip, c01_ctor, c01_codes, c01_refuted_v0) about "
+            "Model/{Convert,Wire,Client}.v: for all prefixes, keys, values, tag lists, builder-call lists and all 22 entry points "
+            "the text handed to the sink has exactly the DogStatsD shape and, for delimiter-free strings, an independent "
+            "server-side parser recovers exactly what was supplied; tied to builder.rs/client.rs/types.rs by a correspondence "
+            "check (exhaustive entry x form x 16 section combinations x defaults, boundary values, random clean and hostile "
+            "strings; real StatsdClient + recording sink vs extracted model), entry-point census, and a reference evaluation "
+            "of the clauses on the implementation's own output; macro form: see C17",
+            WIRE_NOTE, "machine-checked proof (Coq 8.16) on a hand-written model + differential correspondence check",
+            "DESIGN.md 8.C01"),
+    "C02": ("proof",
+            "Coq theorems (Props/C02.v, 20) : decimal rendering is canonical, injective and parses back for all Z/N; every "
+            "integer entry point carries exactly its argument; Duration -> whole ms / ns with the u128 guard and the lossless "
+            "cast, exact guard boundaries; packed lists rejected iff some element overflows, else element-wise in order; "
+            "rejected values emit nothing.  Floats: cadence's delegation to std's Display is proved, std's shortest-round-trip "
+            "printing is assumed and validated on every float used (partial).  Same correspondence check as C01 with guard "
+            "boundaries +-1 and type extremes through every entry point",
+            WIRE_NOTE, "machine-checked proof (Coq 8.16) on a hand-written model + differential correspondence check",
+            "DESIGN.md 8.C02"),
+    "C03": ("proof",
+            "Coq theorems (Props/C03.v, 15) about Model/Client.v for all calls, forms and sink-outcome scripts: at most one "
+            "emit, exactly one iff the value is accepted; Ok(metric) only if the sink accepted exactly that text; a refusal is "
+            "reported as the sink's own io error; rejected value -> invalid-input, nothing emitted; the quiet form returns unit "
+            "and calls the handler exactly once with the error try_send would return, never on success; lifted to call "
+            "sequences.  Correspondence: scripted recording sink + logging handler, every script of length <= 2 x forms x "
+            "valid/rejected exhaustively, longer random sequences",
+            WIRE_NOTE, "machine-checked proof (Coq 8.16) on a hand-written model + differential correspondence check",
+            "DESIGN.md 8.C03"),
+    "C04": ("proof",
+            "Coq theorems (Props/C04.v, 10): default tags first in configured order then the call's tags in order, per-call "
+            "container id replaces the default for that call only, a client without defaults adds nothing - generic in kind and "
+            "argument, for all configurations and builder-call lists; same correspondence check as C01 (defaults x per-call x "
+            "entry x form product)",
+            WIRE_NOTE, "machine-checked proof (Coq 8.16) on a hand-written model + differential correspondence check",
+            "DESIGN.md 8.C04"),
+    "C08": ("proof",
+            "Coq theorems (Props/C08.v, 16) about the small-step machine Model/Queue.v (one event = one channel operation / "
+            "atomic increment / call of the wrapped sink; all event lists = all interleavings, all capacities incl. 0 and "
+            "unbounded, all outcome choices): delivered ++ in-flight ++ queued = acceptance order in every reachable state "
+            "(nothing lost, duplicated or reordered; one metric at a time), the worker lives while a handle lives, and from "
+            "every reachable state worker-side steps alone deliver everything accepted (measure-based termination); "
+            "refutation of the pinned tree's Drop (c08_refuted_v0, defect D2).  Correspondence: scripted histories against a "
+            "gated wrapped sink (every call blocks until the script releases it with ok/err/panic), exhaustive <= 4 actions x "
+            "capacities {0,1,2,unbounded}, targeted families, random histories, concurrent soak with 2-8 producers",
+            QUEUE_NOTE, "machine-checked proof (Coq 8.16) on a hand-written model + differential correspondence check",
+            "DESIGN.md 8.C08"),
+    "C09": ("proof",
+            "Coq theorems (Props/C09.v, 10): in every reachable state without a live handle, for every capacity, occupancy and "
+            "outcome script, worker-side steps reach 'worker exited, everything accepted delivered, wrapped sink released'; "
+            "DropH is one non-blocking step in every state; refutations of the pinned tree (defect D3) for capacities 0, 1, 2.  "
+            "Correspondence: last drop at every occupancy 0..capacity+1 x capacities {0,1,2,3,unbounded} x outcome patterns, "
+            "observing the wrapped sink's Drop and the latency of drop()",
+            QUEUE_NOTE, "machine-checked proof (Coq 8.16) on a hand-written model + differential correspondence check",
+            "DESIGN.md 8.C09"),
+    "C10": ("proof",
+            "Coq theorems (Props/C10.v, 10): the result of an emit is a function of capacity, queue length and whether the "
+            "worker waits in recv only (independent of every past outcome), a bounded queue never exceeds its capacity, an "
+            "unbounded queue accepts everything, emit is enabled in every state with a live handle whatever the worker does, "
+            "only the worker-side finish event touches the delivery/handler/panic logs.  Partial: 'promptly' and 'on another "
+            "thread' are runtime facts validated by the harness (latency bound with the gate closed, thread identity)",
+            QUEUE_NOTE, "machine-checked proof (Coq 8.16) on a hand-written model + differential correspondence check",
+            "DESIGN.md 8.C10"),
+    "C11": ("proof",
+            "Coq theorems (Props/C11.v, 11) for all outcome scripts over {ok, err, panic}: a panicking metric is consumed exactly "
+            "once, all others are delivered once in order (commit + eventual delivery restated with panics, also with the stop "
+            "pending), the sink keeps accepting, panics() = number of panics.  Correspondence: every outcome pattern of length "
+            "<= 5, with and without pending stop; the panic is raised inside the wrapped sink's emit",
+            QUEUE_NOTE, "machine-checked proof (Coq 8.16) on a hand-written model + differential correspondence check",
+            "DESIGN.md 8.C11"),
+    "C15": ("proof",
+            "Coq theorems (Props/C15.v, 10): at quiescent moments submitted = #Ok emits, drained = #handed to the wrapped sink, "
+            "queued = difference = channel occupancy; refused emits change nothing; for EVERY placement of the two loads of "
+            "queued() among other events the value is <= submitted and the subtraction is guarded; the transient drained > "
+            "submitted is reachable (the guard is necessary).  Correspondence: samples after every action of the scripted "
+            "histories + a free-running sampler thread in the concurrent soak",
+            QUEUE_NOTE, "machine-checked proof (Coq 8.16) on a hand-written model + differential correspondence check",
+            "DESIGN.md 8.C15"),
+    "C16": ("proof",
+            "Coq theorems (Props/C16.v, 8): with a handler, the handler log is exactly the failures of the delivery log, once "
+            "each and in order, appended by the very event that completes the failing call (before the next metric); nothing "
+            "for accepted or panicking metrics; without a handler nothing, delivery unaffected; only the worker-side finish "
+            "event touches it.  Correspondence: ok/err patterns <= 5 with and without handler, payload identity and position "
+            "relative to the wrapped sink's calls, thread identity",
+            QUEUE_NOTE, "machine-checked proof (Coq 8.16) on a hand-written model + differential correspondence check",
+            "DESIGN.md 8.C16"),
+})
+
 PENDING = "check not built yet in this session (under construction; not a claim that the technique cannot apply)"
 
 
